@@ -263,6 +263,13 @@ def main(argv=None):
 
     for idx, r in cpool.imap_unordered(_worker, keys, jobs, init=_init_worker, should_stop=should_stop):
         done += 1
+        if isinstance(r, cpool.Died) and r.watchdog:
+            # the case burnt more CPU than any case of the unchanged tree by a wide margin
+            # and was killed: coverage is incomplete (exhaustive: false); the properties
+            # say nothing about run time, so this is reported, not a violation
+            agg["notes"]["cases_killed_by_cpu_watchdog"] = agg["notes"].get("cases_killed_by_cpu_watchdog", 0) + 1
+            stopped_early[0] = True
+            continue
         if isinstance(r, cpool.Died):
             # the implementation killed the interpreter while running this case: that is an
             # outcome of the case (reported as a violation), not a reason to hang
